@@ -348,10 +348,18 @@ def _chunk(seeds):
             except Exception as e:  # noqa: BLE001
                 out.append({"skipped": f"{name}: no SDL ({type(e).__name__})"})
                 continue
-            for route in ("sdl", "sdl-assume-valid", "programmatic"):
+            # the same schema written with extensions that add nothing but a directive application: every rule reads a type
+            # together with its extensions (and blames their nodes)
+            kw_of = {"OBJECT": "type", "INTERFACE": "interface", "UNION": "union", "ENUM": "enum", "INPUT_OBJECT": "input", "SCALAR": "scalar"}
+            ext_types = [t for t in S["types"] if rnd.random() < 0.5 and not t["name"].startswith("__")]
+            sdl_ext = sdl + "\ndirective @xnoop repeatable on OBJECT | INTERFACE | UNION | ENUM | INPUT_OBJECT | SCALAR\n" + \
+                "".join(f"\nextend {kw_of[t['kind']]} {t['name']} @xnoop" for t in ext_types) if not any(d["name"] == "xnoop" for d in S["directives"]) else sdl
+            for route in ("sdl", "sdl-assume-valid", "sdl-extended", "programmatic"):
                 try:
                     if route == "sdl":
                         s = build_schema(sdl)
+                    elif route == "sdl-extended":
+                        s = build_schema(sdl_ext, assume_valid_sdl=True)
                     elif route == "sdl-assume-valid":
                         s = build_schema(sdl, assume_valid_sdl=True)
                     else:
